@@ -170,6 +170,16 @@ fn gen_c10(ch: &mut Chunker, r: &mut Rng, thorough: bool, scale: usize) {
     for _ in 0..1500 * scale {
         crate::props2::rec_dw_rel(ch, r);
     }
+    // (d) sequences with random payloads between random words (code-point / byte arithmetic in the skipper)
+    for _ in 0..2500 * scale {
+        let mut s = String::new();
+        for _ in 0..r.range(1, 3) {
+            s.push_str(&rand_word(r, 3));
+            s.push_str(&rand_seq(r));
+        }
+        s.push_str(&rand_word(r, 3));
+        rec_dw(ch, &s);
+    }
 }
 
 fn gen_c11(ch: &mut Chunker, r: &mut Rng, thorough: bool, scale: usize) {
@@ -180,6 +190,21 @@ fn gen_c11(ch: &mut Chunker, r: &mut Rng, thorough: bool, scale: usize) {
         }
     }
     for s in all_strings(&['a', ' ', '\u{1b}', '[', 'm', '\u{4f60}'], if thorough { 6 } else { 5 }) {
+        for &sep in seps {
+            rec_words(ch, &s, sep);
+        }
+    }
+    // random scalar values without spaces between them (CJK, emoji, Latin extensions, punctuation), optionally with a sequence
+    for i in 0..2500 * scale {
+        let mut s = rand_word(r, 6);
+        if i % 4 == 0 {
+            s.push_str(&rand_seq(r));
+            s.push_str(&rand_word(r, 3));
+        }
+        if i % 5 == 0 {
+            s.push(' ');
+            s.push_str(&rand_word(r, 4));
+        }
         for &sep in seps {
             rec_words(ch, &s, sep);
         }
